@@ -12,6 +12,17 @@ use std::time::Instant;
 
 static N_STATIC: AtomicUsize = AtomicUsize::new(0);
 
+/// a `when` condition that takes a few hundred nanoseconds (conditions that inspect paths, strings or
+/// buffers do): the time a call spends between being seen and being judged is then not negligible
+#[inline(never)]
+fn slow_is_seven(a: i32) -> bool {
+    let mut h = a as u64;
+    for _ in 0..60 {
+        h = std::hint::black_box(crate::rng::hash64(h));
+    }
+    std::hint::black_box(h != 1) && a == 7
+}
+
 #[inline(never)]
 pub fn tgt_a(a: i32) -> i32 {
     std::hint::black_box(a - 1000)
@@ -66,7 +77,7 @@ fn make(arm: Arm) -> (FuncPtr, CallCountVerifier) {
         Arm::Ret => injectorpp::fake!(func_type: fn(_a: i32) -> i32, returns: 55, times: N_STATIC.load(Ordering::SeqCst)),
         Arm::UnitAssign => injectorpp::fake!(func_type: fn(a: i32, out: &mut i32) -> (), assign: { *out = a + 1 }, times: N_STATIC.load(Ordering::SeqCst)),
         Arm::UnsafeRet => injectorpp::fake!(func_type: unsafe fn(_a: i32) -> i32, returns: 66, times: N_STATIC.load(Ordering::SeqCst)),
-        Arm::WhenAssignRet => injectorpp::fake!(func_type: fn(a: i32) -> i32, when: a == 7, assign: { let _ = a; }, returns: 200 + a, times: N_STATIC.load(Ordering::SeqCst)),
+        Arm::WhenAssignRet => injectorpp::fake!(func_type: fn(a: i32) -> i32, when: slow_is_seven(a), assign: { let _ = a; }, returns: 200 + a, times: N_STATIC.load(Ordering::SeqCst)),
         Arm::UnitTimes => injectorpp::fake!(func_type: fn(_a: i32, _out: &mut i32) -> (), times: N_STATIC.load(Ordering::SeqCst)),
     }
 }
@@ -151,23 +162,42 @@ pub fn run_c06(ctx: &Ctx) {
                         if t > 1 && k < 2 {
                             continue;
                         }
-                        trials.push((arm, n, k, t, rep));
+                        trials.push((arm, n, k, t, rep, usize::MAX));
                     }
                 }
+            }
+        }
+    }
+    // boundary trials: exactly N matching calls, each on its own thread, released together with several
+    // NON-matching calls on other threads (a rejected call must never take a slot of the budget, not even
+    // for a moment)
+    let bmult = if ctx.thorough { 12 } else { 40 };
+    for rep in 0..reps * bmult {
+        for &arm in &[Arm::WhenRet, Arm::WhenAssignRet] {
+            for &(n, t) in &[(1usize, 4usize), (1, 8), (2, 8), (3, 16)] {
+                trials.push((arm, n, n, t, rep, t - n));
+            }
+        }
+    }
+    // admission races: more matching callers than budget, one call per thread, released together
+    for rep in 0..reps * bmult {
+        for &arm in &ARMS {
+            for &(n, t) in &[(1usize, 2usize), (1, 4), (2, 4), (1, 8), (3, 8)] {
+                trials.push((arm, n, t, t, rep, 0));
             }
         }
     }
     let mut overlap_trials = 0u64;
     let mut total_calls = 0u64;
     let mut by_outcome: std::collections::BTreeMap<String, u64> = std::collections::BTreeMap::new();
-    for (idx, &(arm, n, k, t, rep)) in trials.iter().enumerate() {
+    for (idx, &(arm, n, k, t, rep, m_override)) in trials.iter().enumerate() {
         let idx = idx as u64;
         if !ctx.mine(idx) {
             continue;
         }
         let mut rng = Rng::new(ctx.seed ^ hash64(idx ^ 0xC06));
-        let m = if has_when(arm) { rng.below(4) as usize } else { 0 };
-        let class = format!("{:?}/N={}/k={}/t={}{}", arm, n, k.min(n + 2), t, if m > 0 { "/with-nonmatching" } else { "" });
+        let m = if m_override != usize::MAX { m_override } else if has_when(arm) { rng.below(4) as usize } else { 0 };
+        let class = format!("{:?}/N={}/k={}/t={}{}{}", arm, n, k.min(n + 2), t, if m > 0 { "/with-nonmatching" } else { "" }, if m_override == usize::MAX { "" } else if m_override == 0 { "/admission-race" } else { "/boundary" });
         out::intent(idx, &class, &J::new().n("N", n).n("k", k).n("threads", t).n("nonmatching", m).n("rep", rep).s("crash_sig", &format!("{:?}", arm)));
         N_STATIC.store(n, Ordering::SeqCst);
         let pair = make(arm);
